@@ -14,7 +14,7 @@ package option
 //@     cond(isRegexpPat(p), cond(exact, re2Search(patBody(p), s), re2SearchFold(patBody(p), s)),
 //@                          cond(exact, p == s, equalFold(p, s)))
 //@ spec pmInv(m *PatternMatcher) bool =
-//@     m != nil && m.re != nil && reSrc(m.re) == exprOf(m.pattern, m.exactCase) && re2Valid(patBody(m.pattern))
+//@     m != nil && allocated(m) && m.re != nil && reSrc(m.re) == exprOf(m.pattern, m.exactCase) && re2Valid(patBody(m.pattern))
 //@
 //@ func compileRegexp(pattern, exactCase) (re, err)
 //@   use R3valid(patBody(pattern)), R4valid(pattern)
@@ -34,6 +34,7 @@ package option
 //@   assigns m.re, m.exactCase
 //@   ensures {C19,C06,C09} pmInv(m) && m.exactCase == exactCase
 //@   ensures {C19,C06,C09} r == refMatch(m.pattern, ident, exactCase)
+//@   ensures {C14} kept(pmInv, *PatternMatcher)
 //@
 //@ spec shouldSkip(o Options, name string) bool =
 //@     exists(i, 0, len(o.SkipFields), refMatch(o.SkipFields[i].pattern, name, o.ExactCase))
@@ -51,7 +52,8 @@ package option
 //@   assigns all(PatternMatcher.re), all(PatternMatcher.exactCase)
 //@   ensures {C19,C06} skipInv(o)
 //@   ensures {C19,C06} r == shouldSkip(o, fieldName)
-//@   loop 1 invariant $k <= len(o.SkipFields) && skipInv(o)
+//@   ensures {C14} kept(pmInv, *PatternMatcher)
+//@   loop 1 invariant $k <= len(o.SkipFields) && skipInv(o) && kept(pmInv, *PatternMatcher)
 //@   loop 1 invariant forall(i, 0, $k, !refMatch(o.SkipFields[i].pattern, fieldName, o.ExactCase))
 //@
 //@ func (Options).CompareFieldName(o, a, b) (r)
